@@ -14,6 +14,8 @@ import Driver.C31
 import Driver.C07
 import Driver.C17
 import Driver.C32
+import Driver.C20
+import Driver.C11
 /-
   Model driver: reads one request per line on stdin (`<suite> <op> <args…>`), answers one
   line per request on stdout.  Imports models only (no Mathlib, no proofs).
@@ -37,6 +39,8 @@ def dispatch (fs : List String) : String :=
   | "c07" :: rest => Driver.c07 rest
   | "c17" :: rest => Driver.c17 rest
   | "c32" :: rest => Driver.c32 rest
+  | "c20" :: rest => Driver.c20 rest
+  | "c11" :: rest => Driver.c11 rest
   | _ => "bad-op"
 
 partial def loop (h : IO.FS.Stream) (out : IO.FS.Stream) : IO Unit := do
